@@ -63,6 +63,14 @@ def run(R):
             if n in (16, 64): sops.append(CS.crypt_op("rn", 0, ph, S.CANON[m] + b"$" + S.rs(R.rng, S.A64, CS.DIGLEN.get(m, 11))))
     for st in bads:
         sops.append(CS.crypt_op("rn", 0, bytes(R.rng.randrange(1, 256) for _ in range(40)), st))
+    # salt-length classes of the yescrypt family: PBKDF2-HMAC-SHA256 takes its c == 1 fast path or its generic path depending on the
+    # salt length modulo 64 (fast iff (saltlen & 63) <= 51), and each path has its own stack temporaries to wipe (seeded/C09b)
+    for sl in ([0, 1, 8, 16, 43, 50, 51, 52, 53, 57, 60, 63, 64, 65, 70, 115, 116, 120] if quick else list(range(0, 140))):
+        for plen in ([40] if quick else [8, 33, 40, 64, 65, 100]):
+            ph = bytes(R.rng.randrange(1, 256) for _ in range(plen))
+            sops.append(CS.crypt_op("rn", 0, ph, b"$7$66..../...." + S.rs(R.rng, S.A64, sl)))
+            if sl <= 86 and sl % 4 != 1:
+                sops.append(CS.crypt_op("rn", 0, ph, b"$y$j75$" + S.enc64(bytes(R.rng.randrange(256) for _ in range(sl * 3 // 4)))))
     sgroups = [sops[i:i + 8] for i in range(0, len(sops), 8)]
     _, sil, sml = R.run_pair_sharded(sgroups, variant="O0", env={"XC_STACKSCAN": "1"})
     diffs += compare(R, sops, sil, sml, proj, "-O0 build")
